@@ -419,12 +419,12 @@ def refine(hyps, goal, timeout_ms=8000, seed=0, rounds=12, max_inst=6000, budget
     return out
 
 
-def prove(hyps, goal, timeout_ms=10000, seed=0, use_cvc5=True, both=False, quick_only=False):
+def prove(hyps, goal, timeout_ms=10000, seed=0, use_cvc5=True, both=False, quick_only=False, patient=False):
     """Validity of hyps => goal.  Returns dict(status=proved|refuted|undecided, backend, time_s, model?).
     Stage 1: z3 with E-matching only (patterns are given by the generator).  Stage 2: model-guided instantiation
     (proves, or yields a counter-model).  Stage 3: cvc5, then z3 with MBQI and a larger budget."""
     t0 = time.time()
-    s = _mk_solver(min(timeout_ms, 4000) if not both else timeout_ms, seed)
+    s = _mk_solver((min(timeout_ms, 4000) if not both else timeout_ms) if not patient else max(timeout_ms * 4, 40000), seed)
     s.set('smt.mbqi', False)
     for a in axioms():
         s.add(a)
